@@ -420,7 +420,28 @@ func eq(a, b string) string {
 	if a == b {
 		return "true"
 	}
+	if isLiteralTerm(a) && isLiteralTerm(b) {
+		return "false" // two different literals of the same sort
+	}
 	return "(= " + a + " " + b + ")"
+}
+
+func isLiteralTerm(t string) bool {
+	if t == "" {
+		return false
+	}
+	if t == "true" || t == "false" {
+		return true
+	}
+	if strings.HasPrefix(t, "#x") || strings.HasPrefix(t, "#b") {
+		return true
+	}
+	for i := 0; i < len(t); i++ {
+		if t[i] < '0' || t[i] > '9' {
+			return false
+		}
+	}
+	return true
 }
 
 func sel(arr, idx string) string { return "(select " + arr + " " + idx + ")" }
